@@ -928,16 +928,23 @@ impl<'a> BTreeCursor<'a> {
             return Ok(true);
         }
 
-        let next = page.right_sibling();
-        if next.as_u64() == 0 {
-            self.slot = count;
-            return Ok(false);
+        // Deletes never merge leaves, so a sibling may be empty: skip such leaves instead of
+        // ending the scan in front of the entries that follow them.
+        let mut next = page.right_sibling();
+        loop {
+            if next.as_u64() == 0 {
+                let count = Page::new(&mut self.buf).cell_count() as u16;
+                self.slot = count;
+                return Ok(false);
+            }
+            self.leaf = next;
+            self.buf = self.pager.read_page(self.leaf)?;
+            self.slot = 0;
+            if self.is_valid()? {
+                return Ok(true);
+            }
+            next = Page::new(&mut self.buf).right_sibling();
         }
-
-        self.leaf = next;
-        self.buf = self.pager.read_page(self.leaf)?;
-        self.slot = 0;
-        self.is_valid()
     }
 }
 
